@@ -69,8 +69,9 @@ def cases(tier):
                         continue
                     out.append(dict(name="soft_%s_T%d_%s_row%d" % ("corr" if corr else "nocorr", T_,
                                                                    "_".join("%s%s" % (k, "".join(v)) for k, v in calls.items()) or "nocalls", row),
-                                    kind="summary", soft=True, T=T_, corr=corr, calls=calls, B=2, alphas=[0.5, 0.9], units=units,
-                                    weights=[11, 16], base=100, aggregates=["postal_code", "unit"], weight=40, symbolic_rows=[row]))
+                                    kind="summary", soft=True, T=T_, corr=corr, calls=calls, B=2, alphas=[0.9], units=units,
+                                    weights=[11, 16], base=100, aggregates=["postal_code", "unit"], weight=40, symbolic_rows=[row],
+                                    symbolic_mats=("e1", "yz")))
     for corr in (True, False):
         out.append(dict(name="repeated_requests_%s" % ("corr" if corr else "nocorr"), kind="repeat", corr=corr, B=2, alphas=[0.9],
                         units=units, aggregates=["postal_code", "unit"], symbolic_rows=[0], weight=25))
@@ -159,7 +160,7 @@ def run(ctx, case):
     w = dict(zip(states, case.get("weights", [11, 16, 3])))
     base = case.get("base", 100)
     sc = BS.build_bs(ctx, case)
-    boot = BS.BootStub(ctx, case["B"], symbolic_rows=case.get("symbolic_rows")).install()
+    boot = BS.BootStub(ctx, case["B"], symbolic_rows=case.get("symbolic_rows"), symbolic_mats=case.get("symbolic_mats")).install()
     soft = ExpitStub(ctx).install() if case.get("soft") else None
     try:
         if case["kind"] == "wrong":
